@@ -62,11 +62,11 @@ NONE = "::core::option::Option::None"
 CASES = []
 
 
-def case(cid, derives, src, obs, tier="quick"):
+def case(cid, derives, src, obs, tier="quick", expect=None):
     """derives: derive names under test (first one decides the family); obs: Rust expression (Debug-printable)"""
     for d in derives:
         assert d in DERIVES, d
-    CASES.append({"id": cid, "derives": list(derives), "src": src.strip("\n"), "obs": obs.strip(), "tier": tier})
+    CASES.append({"id": cid, "derives": list(derives), "src": src.strip("\n"), "obs": obs.strip(), "tier": tier, "expect": expect})
 
 
 def D(*names):
@@ -284,6 +284,8 @@ case("Error_enum", ["Error"], ERRD + " pub struct E1; " + ERRD +
      % (SRC, SRC, SRC, SRC, SRC))
 case("Error_enum_all_sources", ["Error"], ERRD + " pub struct E1; " + ERRD + " pub enum E { #[display(\"a\")] A(E1), #[display(\"b\")] B { source: E1 } }",
      "(%s(&E::A(E1)).is_some(), %s(&E::B { source: E1 }).is_some())" % (SRC, SRC))
+case("Error_enum_tuple_only", ["Error"], ERRD + " pub struct E1; " + ERRD + " pub enum E { #[display(\"a\")] A(E1), #[display(\"b\")] B(i32, #[error(source)] E1), #[display(\"c\")] C }",
+     "(%s(&E::A(E1)).is_some(), %s(&E::B(1, E1)).is_some(), %s(&E::C).is_some())" % (SRC, SRC, SRC))
 case("Error_enum_no_source", ["Error"], ERRD + " pub enum E { A, #[display(\"b\")] B { x: i32, y: i32 } }", "%s(&E::A).is_none()" % SRC)
 case("Error_generic", ["Error"], ERRD + " pub struct E1; " + ERRD + " #[display(\"g\")] pub struct G<T> { pub source: T }",
      "%s(&G { source: E1 }).is_some()" % SRC)
@@ -430,6 +432,59 @@ case("Into_lifetime_named", ["Into"], D("Into") + " #[into(ref)] pub struct W<'d
 case("TryInto_lifetime_named", ["TryInto"], D("TryInto") + " #[try_into(ref)] pub enum V<'deriveMoreLifetime> { A(&'deriveMoreLifetime i32), B(u8) }",
      "<&u8 as ::core::convert::TryFrom<&V>>::try_from(&V::B(4)).ok().map(|x| *x)")
 
+# ------------------------------------------------------------------ field / target types with inherent namesakes (crate::h::Px)
+PX = "crate::h::Px"
+for tr, op, a, b in ADD:
+    exp = {"+": 9, "-": 3, "&": 2, "|": 7, "^": 5}[op]
+    case("%s_px" % tr, [tr], D(tr) + " pub struct T(pub %s, pub %s); " % (PX, PX) + D(tr) + " pub struct N { pub a: %s }" % PX,
+         "{ let r = T(%s(6), %s(6)) %s T(%s(3), %s(3)); let n = N { a: %s(6) } %s N { a: %s(3) }; (r.0 .0, r.1 .0, n.a.0) }" % (PX, PX, op, PX, PX, PX, op, PX),
+         expect="(%d, %d, %d)" % (exp, exp, exp))
+    case("%s_px_enum" % tr, [tr], D(tr) + " pub enum E { A(%s), B { x: %s } }" % (PX, PX),
+         "(match E::A(%s(6)) %s E::A(%s(3)) { %s(E::A(v)) => v.0, _ => -1 }, match (E::B { x: %s(6) }) %s (E::B { x: %s(3) }) { %s(E::B { x }) => x.0, _ => -1 })"
+         % (PX, op, PX, OK, PX, op, PX, OK), expect="(%d, %d)" % (exp, exp))
+for tr, op in ADDA:
+    exp = {"+=": 9, "-=": 3, "&=": 2, "|=": 7, "^=": 5}[op]
+    case("%s_px" % tr, [tr], D(tr) + " pub struct T(pub %s); " % PX + D(tr) + " pub struct N { pub a: %s }" % PX,
+         "{ let mut r = T(%s(6)); r %s T(%s(3)); let mut n = N { a: %s(6) }; n %s N { a: %s(3) }; (r.0 .0, n.a.0) }" % (PX, op, PX, PX, op, PX),
+         expect="(%d, %d)" % (exp, exp))
+for tr, op in MUL:
+    exp = {"*": 24, "/": 6, "%": 0, ">>": 3, "<<": 48}[op]
+    case("%s_px" % tr, [tr], D(tr) + " pub struct M(pub %s); " % PX + D(tr) + " pub struct M2 { pub a: %s, pub b: %s }" % (PX, PX),
+         "{ let r = M(%s(12)) %s 2; let s = M2 { a: %s(12), b: %s(12) } %s 2; (r.0 .0, s.a.0, s.b.0) }" % (PX, op, PX, PX, op), expect="(%d, %d, %d)" % (exp, exp, exp))
+for tr, op in MULA:
+    exp = {"*=": 24, "/=": 6, "%=": 0, ">>=": 3, "<<=": 48}[op]
+    case("%s_px" % tr, [tr], D(tr) + " pub struct M(pub %s); " % PX + D(tr) + " pub struct M2(pub %s, pub %s);" % (PX, PX),
+         "{ let mut r = M(%s(12)); r %s 2; let mut s = M2(%s(12), %s(12)); s %s 2; (r.0 .0, s.0 .0, s.1 .0) }" % (PX, op, PX, PX, op), expect="(%d, %d, %d)" % (exp, exp, exp))
+case("Not_px", ["Not"], D("Not") + " pub struct T(pub %s); " % PX + D("Not") + " pub enum E { A(%s), B { x: %s } }" % (PX, PX),
+     "((!T(%s(5))).0 .0, match !E::A(%s(5)) { E::A(v) => v.0, _ => 0 }, match !(E::B { x: %s(5) }) { E::B { x } => x.0, _ => 0 })" % (PX, PX, PX), expect="(-6, -6, -6)")
+case("Neg_px", ["Neg"], D("Neg") + " pub struct T { pub a: %s } " % PX + D("Neg") + " pub enum E { A(%s), U }" % PX,
+     "((-T { a: %s(5) }).a.0, match -E::A(%s(5)) { %s(E::A(v)) => v.0, _ => 0 })" % (PX, PX, OK), expect="(-5, -5)")
+case("Sum_px", ["Sum", "Add"], D("Add", "Sum") + " pub struct S(pub %s);" % PX,
+     "<S as ::core::iter::Sum>::sum(::core::iter::IntoIterator::into_iter([S(%s(1)), S(%s(2)), S(%s(4))])).0 .0" % (PX, PX, PX), expect="7")
+case("From_px_forward", ["From"], D("From") + " #[from(forward)] pub struct F(pub %s); " % PX + D("From") + " #[from(forward)] pub struct G { pub a: %s, pub b: i64 }" % PX,
+     "{ let f: F = ::core::convert::From::from(5i32); let g: G = ::core::convert::From::from((6i32, 7i32)); (f.0 .0, g.a.0, g.b) }", expect="(5, 6, 7)")
+case("Into_px_types", ["Into"], D("Into") + " #[into(%s)] pub struct W(pub i32); " % PX + D("Into") + " #[into((%s, i64))] pub struct V(pub i32, pub i32);" % PX,
+     "{ let p: %s = ::core::convert::Into::into(W(3)); let q: (%s, i64) = ::core::convert::Into::into(V(4, 5)); (p.0, q.0 .0, q.1) }" % (PX, PX), expect="(3, 4, 5)")
+case("Into_px_field", ["Into"], D("Into") + " pub struct W(pub %s); " % PX + D("Into") + " #[into(owned, ref)] pub struct V { pub a: %s, pub b: u8 }" % PX,
+     "{ let p: %s = ::core::convert::Into::into(W(%s(3))); let v = V { a: %s(4), b: 1 }; let r: (&%s, &u8) = ::core::convert::Into::into(&v); (p.0, r.0 .0, *r.1) }" % (PX, PX, PX, PX),
+     expect="(3, 4, 1)")
+case("FromStr_px", ["FromStr"], D("FromStr") + " pub struct N(pub %s);" % PX, "<N as ::core::str::FromStr>::from_str(\"5\").map(|n| n.0 .0).ok()", expect="Some(5)")
+case("Deref_px_forward", ["Deref", "DerefMut"], D("Deref", "DerefMut") + " #[deref(forward)] #[deref_mut(forward)] pub struct W(pub %s);" % PX,
+     "{ let mut w = W(%s(5)); *w += 1; *w }" % PX, expect="6")
+case("Index_px", ["Index", "IndexMut"], D("Index", "IndexMut") + " pub struct I(pub %s);" % PX, "{ let mut i = I(%s(5)); i[0usize] += 1; i[0usize] }" % PX, expect="6")
+case("IntoIterator_px", ["IntoIterator"], D("IntoIterator") + " pub struct It(pub %s);" % PX, "{ let mut s = 0; for x in It(%s(5)) { s += x; } s }" % PX, expect="5")
+case("AsRef_px_forward", ["AsRef", "AsMut"], D("AsRef", "AsMut") + " #[as_ref(forward)] #[as_mut(forward)] pub struct A(pub %s);" % PX,
+     "{ let mut a = A(%s(5)); *<A as ::core::convert::AsMut<i32>>::as_mut(&mut a) += 1; *<A as ::core::convert::AsRef<i32>>::as_ref(&a) }" % PX, expect="6")
+case("AsRef_px_types", ["AsRef"], D("AsRef") + " #[as_ref(i32, %s)] pub struct A(pub %s);" % (PX, PX),
+     "{ let a = A(%s(5)); (*<A as ::core::convert::AsRef<i32>>::as_ref(&a), <A as ::core::convert::AsRef<%s>>::as_ref(&a).0) }" % (PX, PX), expect="(5, 5)")
+case("Display_px", ["Display", "Debug"], D("Display", "Debug") + " pub struct S(pub %s); " % PX + D("Display", "Debug") +
+     " pub enum E { A(%s), #[display(\"b={x}\")] #[debug(\"b={x:?}\")] B { x: %s } }" % (PX, PX),
+     "(crate::h::disp(&S(%s(6))), crate::h::dbg(&S(%s(6))), crate::h::disp(&E::A(%s(7))), crate::h::disp(&E::B { x: %s(8) }), crate::h::dbg(&E::B { x: %s(8) }))" % (PX, PX, PX, PX, PX),
+     expect='("px6", "S(Px(6))", "px7", "b=px8", "b=Px(8)")')
+case("Mul_px_forward", ["Mul", "MulAssign"], D("Mul", "MulAssign") + " #[mul(forward)] #[mul_assign(forward)] pub struct M(pub i32); " + D("Sum", "Add", "Product", "Mul") +
+     " #[mul(forward)] pub struct Q(pub i32);",
+     "{ let mut m = M(6) * M(2); m *= M(2); (m.0, <Q as ::core::iter::Product>::product(::core::iter::IntoIterator::into_iter([Q(2), Q(3)])).0) }", expect="(24, 6)")
+
 # ------------------------------------------------------------------ Error::provide (nightly: error_generic_member_access)
 NIGHTLY_CASES = []
 
@@ -517,6 +572,69 @@ pub mod h {
     impl ::core::fmt::Display for Other { fn fmt(&self, f: &mut ::core::fmt::Formatter<'_>) -> ::core::fmt::Result { f.write_str("OTHER") } }
     impl ::std::error::Error for Other {}
     pub static OTHER: Other = Other;
+
+    /// A field / target type whose trait impls behave like `i32`, and which ALSO has inherent associated functions and methods
+    /// named like every trait item the expansions call - all returning the poison value -999 / "POISON".  An expansion that
+    /// reaches the item by name (`x.add(y)`, `<Px>::from(v)`, `Px::from_str(s)`) instead of through the trait path gets the poison.
+    #[derive(Clone, Copy, PartialEq)]
+    pub struct Px(pub i32);
+    pub static POISON: i32 = -999;
+    macro_rules! px_bin { ($($tr:ident $m:ident $op:tt;)*) => { $(
+        impl ::core::ops::$tr for Px { type Output = Px; fn $m(self, o: Px) -> Px { Px(self.0 $op o.0) } }
+        impl Px { pub fn $m(self, _o: Px) -> Px { Px(-999) } }
+    )* } }
+    px_bin! { Add add +; Sub sub -; BitAnd bitand &; BitOr bitor |; BitXor bitxor ^; }
+    macro_rules! px_bin_assign { ($($tr:ident $m:ident $op:tt;)*) => { $(
+        impl ::core::ops::$tr for Px { fn $m(&mut self, o: Px) { self.0 $op o.0; } }
+        impl Px { pub fn $m(&mut self, _o: Px) { self.0 = -999; } }
+    )* } }
+    px_bin_assign! { AddAssign add_assign +=; SubAssign sub_assign -=; BitAndAssign bitand_assign &=; BitOrAssign bitor_assign |=; BitXorAssign bitxor_assign ^=; }
+    macro_rules! px_scalar { ($($tr:ident $m:ident $op:tt;)*) => { $(
+        impl ::core::ops::$tr<i32> for Px { type Output = Px; fn $m(self, o: i32) -> Px { Px(self.0 $op o) } }
+        impl Px { pub fn $m(self, _o: i32) -> Px { Px(-999) } }
+    )* } }
+    px_scalar! { Mul mul *; Div div /; Rem rem %; Shr shr >>; Shl shl <<; }
+    macro_rules! px_scalar_assign { ($($tr:ident $m:ident $op:tt;)*) => { $(
+        impl ::core::ops::$tr<i32> for Px { fn $m(&mut self, o: i32) { self.0 $op o; } }
+        impl Px { pub fn $m(&mut self, _o: i32) { self.0 = -999; } }
+    )* } }
+    px_scalar_assign! { MulAssign mul_assign *=; DivAssign div_assign /=; RemAssign rem_assign %=; ShrAssign shr_assign >>=; ShlAssign shl_assign <<=; }
+    impl ::core::ops::Not for Px { type Output = Px; fn not(self) -> Px { Px(!self.0) } }
+    impl ::core::ops::Neg for Px { type Output = Px; fn neg(self) -> Px { Px(-self.0) } }
+    impl ::core::iter::Sum for Px { fn sum<I: Iterator<Item = Px>>(i: I) -> Px { Px(i.map(|p| p.0).sum()) } }
+    impl ::core::iter::Product for Px { fn product<I: Iterator<Item = Px>>(i: I) -> Px { Px(i.map(|p| p.0).product()) } }
+    impl ::core::convert::From<i32> for Px { fn from(v: i32) -> Px { Px(v) } }
+    impl ::core::str::FromStr for Px { type Err = ::core::num::ParseIntError; fn from_str(s: &str) -> Result<Px, Self::Err> { s.parse().map(Px) } }
+    impl ::core::ops::Deref for Px { type Target = i32; fn deref(&self) -> &i32 { &self.0 } }
+    impl ::core::ops::DerefMut for Px { fn deref_mut(&mut self) -> &mut i32 { &mut self.0 } }
+    impl ::core::ops::Index<usize> for Px { type Output = i32; fn index(&self, _i: usize) -> &i32 { &self.0 } }
+    impl ::core::ops::IndexMut<usize> for Px { fn index_mut(&mut self, _i: usize) -> &mut i32 { &mut self.0 } }
+    impl ::core::iter::IntoIterator for Px { type Item = i32; type IntoIter = ::core::array::IntoIter<i32, 1>; fn into_iter(self) -> Self::IntoIter { [self.0].into_iter() } }
+    impl ::core::convert::AsRef<i32> for Px { fn as_ref(&self) -> &i32 { &self.0 } }
+    impl ::core::convert::AsMut<i32> for Px { fn as_mut(&mut self) -> &mut i32 { &mut self.0 } }
+    impl ::core::fmt::Display for Px { fn fmt(&self, f: &mut ::core::fmt::Formatter<'_>) -> ::core::fmt::Result { write!(f, "px{}", self.0) } }
+    impl ::core::fmt::Debug for Px { fn fmt(&self, f: &mut ::core::fmt::Formatter<'_>) -> ::core::fmt::Result { write!(f, "Px({})", self.0) } }
+    // the inherent namesakes (poison)
+    impl Px {
+        pub fn not(self) -> Px { Px(-999) }
+        pub fn neg(self) -> Px { Px(-999) }
+        pub fn sum<I: Iterator<Item = Px>>(_i: I) -> Px { Px(-999) }
+        pub fn product<I: Iterator<Item = Px>>(_i: I) -> Px { Px(-999) }
+        pub fn from(_v: i32) -> Px { Px(-999) }
+        pub fn into(self) -> i32 { -999 }
+        pub fn try_from(_v: i32) -> Result<Px, ()> { Ok(Px(-999)) }
+        pub fn try_into(self) -> Result<i32, ()> { Ok(-999) }
+        pub fn from_str(_s: &str) -> Result<Px, ::core::num::ParseIntError> { Ok(Px(-999)) }
+        pub fn deref(&self) -> &i32 { &POISON }
+        pub fn index(&self, _i: usize) -> &i32 { &POISON }
+        pub fn into_iter(self) -> ::core::array::IntoIter<i32, 1> { [-999].into_iter() }
+        pub fn as_ref(&self) -> &i32 { &POISON }
+        pub fn fmt(&self, f: &mut ::core::fmt::Formatter<'_>) -> ::core::fmt::Result { f.write_str("POISON") }
+        pub fn default() -> Px { Px(-999) }
+        pub fn new() -> Px { Px(-999) }
+        pub fn clone(&self) -> Px { Px(-999) }
+        pub fn to_string(&self) -> Str { Str::from("POISON") }
+    }
 }
 """
 
